@@ -158,16 +158,7 @@ func checkC14(c *Check) {
 					"newOpenMessage(config.LocalAS, options.holdTime (the configured value), peer.id, GetCapabilities(config))")
 			}
 		}
-		// GetCapabilities exactly once, before the write
-		gc := p.callsIn(so, descIs("invoke:Plugin.GetCapabilities"))
-		wr := p.callsIn(so, descIs("invoke:net.Conn.Write"))
-		pd := newPostDom(so)
-		okG := len(gc) == 1 && len(wr) == 1 && !inLoop(gc[0].Block())
-		if okG {
-			okG = instrDominates(gc[0].(ssa.Instruction), wr[0].(ssa.Instruction)) && pd.onEveryReturnPath(gc[0].(ssa.Instruction))
-		}
-		c.require(okG, "C14.3 one-open-per-connection", "fsm.sendOpenAndSetHoldTimer", "GetCapabilities then Write", p.Pos(so.Pos()),
-			"GetCapabilities is invoked exactly once on every path, before the single Write of the OPEN")
+		c.oneOpenPerConnection("C14.3 one-open-per-connection")
 		// error edges: close, go idle, never start reading
 		idle := p.MustConst("idleState")
 		openSent := p.MustConst("openSentState")
@@ -411,4 +402,60 @@ func (c *Check) openEncodeLayout(rule string) {
 		c.require(len(probs) == 0, rule, "openMessage.encode", "body layout", p.InstrPos(r.Instr), strings.Join(probs, "; "))
 	}
 	c.floor(rule, n, 1, "successful returns of openMessage.encode")
+}
+
+// oneOpenPerConnection: GetCapabilities exactly once per OPEN, before its
+// single Write; sendOpenAndSetHoldTimer is the only sender of OPENs and is
+// entered once per connection.
+func (c *Check) oneOpenPerConnection(rule string) {
+	p := c.P
+	so := p.Fn("fsm.sendOpenAndSetHoldTimer")
+	if so == nil {
+		return
+	}
+	gc := p.callsIn(so, descIs("invoke:Plugin.GetCapabilities"))
+	wr := p.callsIn(so, descIs("invoke:net.Conn.Write"))
+	pd := newPostDom(so)
+	okG := len(gc) == 1 && len(wr) == 1 && !inLoop(gc[0].Block())
+	if okG {
+		okG = instrDominates(gc[0].(ssa.Instruction), wr[0].(ssa.Instruction)) && pd.onEveryReturnPath(gc[0].(ssa.Instruction))
+	}
+	c.require(okG, rule, "fsm.sendOpenAndSetHoldTimer", "GetCapabilities then Write", p.Pos(so.Pos()),
+		"GetCapabilities is invoked exactly once on every path, before the single Write of the OPEN")
+	// GetCapabilities is called nowhere else; the OPEN encoder is used nowhere else
+	for _, fn := range p.FuncSeq {
+		for _, cl := range p.callsIn(fn, descIs("invoke:Plugin.GetCapabilities", "openMessage.encode")) {
+			c.require(fn == so, rule, p.Name(fn), p.calleeDesc(cl), p.InstrPos(cl.(ssa.Instruction)), "OPENs are built and capabilities requested only in sendOpenAndSetHoldTimer")
+		}
+	}
+	// callers: connect (after a successful dial) and active (inbound connection)
+	n := 0
+	for _, fn := range p.FuncSeq {
+		for _, cl := range p.callsIn(fn, descIs("fsm.sendOpenAndSetHoldTimer")) {
+			n++
+			ok := (p.Name(fn) == "fsm.connect" || p.Name(fn) == "fsm.active") && !inLoopBody(cl)
+			c.require(ok, rule, p.Name(fn), "sendOpenAndSetHoldTimer call", p.InstrPos(cl.(ssa.Instruction)), "an OPEN is sent once per connection: right after the connection is obtained, as the state's final action")
+		}
+	}
+	c.floor(rule, n, 3, "sendOpenAndSetHoldTimer call sites")
+}
+
+// inLoopBody: the call is followed by a return on every path (it is the
+// state's last action even if it sits in a loop block).
+func inLoopBody(cl ssa.CallInstruction) bool {
+	in := cl.(ssa.Instruction)
+	fn := in.Parent()
+	hit := pathSearch(fn, in, func(x ssa.Instruction) bool {
+		switch x.(type) {
+		case *ssa.Select, *ssa.Go:
+			return true
+		}
+		if ci, ok := x.(ssa.CallInstruction); ok && ci != cl {
+			if _, isCall := x.(*ssa.Call); isCall {
+				return true
+			}
+		}
+		return false
+	}, func(x ssa.Instruction) bool { _, ok := x.(*ssa.Return); return ok })
+	return hit != nil
 }
